@@ -1,7 +1,7 @@
 /-
 C01 (fragments F2…): the induction step and the round-trip theorem for a feature set.
 -/
-import XsdataModel.Proofs.C01NStep
+import XsdataModel.Proofs.C01NSeq
 
 namespace Proofs.C01
 open Py Xs.Bind Xs.Bind.F1 Xs.Bind.FN
@@ -16,12 +16,10 @@ theorem treeNN_obj (Γ : Ctx) (cfg : SerCfg) (M : NsMap) (n : Nat) (pns : Option
           (textTextN (look fields tv.name)) [] none
       | none =>
         .node q
-          (if (m.elementVars.flatMap fun var =>
-                varTreesN M (treeNN Γ cfg M n (targetUri m.qname)) var (look fields var.name)).isEmpty
+          (if (kidsN M (treeNN Γ cfg M n (targetUri m.qname)) m fields).isEmpty
            then attrPairsN cfg m.attributeVars fields ++ nilAttr (nl || m.nillable)
            else attrPairsN cfg m.attributeVars fields) M none
-          (m.elementVars.flatMap fun var =>
-            varTreesN M (treeNN Γ cfg M n (targetUri m.qname)) var (look fields var.name)) none := by
+          (kidsN M (treeNN Γ cfg M n (targetUri m.qname)) m fields) none := by
   simp only [treeNN, hm]
   cases m.text <;> rfl
 
@@ -128,10 +126,9 @@ theorem main_stepN (ft : Feat) (e : BEnv) (Γ : Ctx) (cfg : SerCfg) (pcfg : Pars
         simpa [htext] using MF.body
       simp only [FN.textVarOK, FN.varBase, Bool.and_eq_true, Bool.not_eq_true',
         Option.isNone_iff_eq_none] at hTV
-      obtain ⟨⟨⟨⟨⟨hisText, hbase⟩, hnillable⟩, hwrap⟩, hkind⟩, hfa⟩ := hTV
+      obtain ⟨⟨⟨⟨⟨⟨hisText, hbase⟩, hnillable⟩, hwrap⟩, hseq⟩, hkind⟩, hfa⟩ := hTV
       have hinit : tv.init = true := hbase.1.1.1.1.1.1.1.1
       have hmixed : tv.mixed = false := hbase.1.1.1.1.1.1.1.2
-      have hseq : tv.sequence = none := by simpa using hbase.1.1.1.2
       obtain ⟨f0, hf0, _, _⟩ := fieldAgrees_iff.1 hfa
       have hin : tv.name ∈ fields.map (·.1) := by rw [hnames]; exact mem_names_of_find hf0
       have htvE : tv ∈ mp.elementVars := by rw [hEV]; simp
@@ -403,22 +400,30 @@ theorem main_stepN (ft : Feat) (e : BEnv) (Γ : Ctx) (cfg : SerCfg) (pcfg : Pars
         | cls c' m' hc htk ht hd hm hns' =>
           exact cls_bundle e Γ cfg pcfg M n IH hf hc htk ht hd hm hns' q hns hv (hbodyE var hv) f'
             (by omega)
+      -- `next_value`
+      have hVS : ∀ var ∈ mp.elementVars, VarSeq fields var := fun var hv =>
+        ⟨hin var hv, (hB var hv).shape, items_nones (hEF var hv).2.1 (hbodyE var hv)⟩
+      obtain ⟨R, hNVe, hspec⟩ := nextValue_spec mp fields hVS hEnames MF.seqOK
+      have hvalsN : valsN mp fields = R := by simp [valsN, hNVe]
+      have hitemOf : ∀ c ∈ R, ∀ y ∈ itemsN c.1 c.2, y ∈ itemsN c.1 (look fields c.1.name) := by
+        intro c hc y hy
+        exact (mem_entries hspec hEnames (List.mem_flatMap.2 ⟨c, hc,
+          by simp only [chunkEntries, List.mem_map]; exact ⟨y, hy, rfl⟩⟩)).2
       -- the generator
-      have hNVe := nextValue_N mp fields (fun var hv => ⟨(hEF var hv).1.sequence, hin var hv⟩)
       obtain ⟨body, hbodyEq, hBodyW, hbodyNil⟩ := body_genN e Γ cfg M (targetUri q)
-        (treeNN Γ cfg M n (targetUri mp.qname)) (m := mp)
-        (mp.elementVars.flatMap (fun var => emitOfN var (look fields var.name))) f'
+        (treeNN Γ cfg M n (targetUri mp.qname)) (m := mp) R f'
         (fun c hc => by
-          obtain ⟨var, hv, hcv⟩ := List.mem_flatMap.1 hc
-          obtain ⟨rfl, hem⟩ := mem_emitOfN hcv
-          exact ⟨(hEF var hv).1, (hB var hv).shape, hem, fun y hy =>
-            ((hB var hv).items y hy _ (by unfold chunkFuel; split <;> simp_all)).1⟩)
-      rw [chunks_trees] at hBodyW hbodyNil
+          obtain ⟨hv, hs, hem, harr⟩ := hspec.1 c hc
+          refine ⟨(hEF _ hv).1, hs, hem, fun y hy => ((hB _ hv).items y (hitemOf c hc y hy) _ ?_).1⟩
+          unfold chunkFuel
+          by_cases ha : c.2.isArray = true
+          · rw [if_pos ha]; exact Or.inr ⟨rfl, by rw [← harr ha]; exact ha⟩
+          · rw [if_neg ha]; exact Or.inl rfl)
       -- emptiness of the content on both sides
-      have hempty : body.flatten.isEmpty = (mp.elementVars.flatMap fun var =>
-          varTreesN M (treeNN Γ cfg M n (targetUri mp.qname)) var (look fields var.name)).isEmpty := by
-        cases hk : (mp.elementVars.flatMap fun var =>
-            varTreesN M (treeNN Γ cfg M n (targetUri mp.qname)) var (look fields var.name)) with
+      have hempty : body.flatten.isEmpty =
+          (R.flatMap fun c => chunkTrees M (itemTreeNN M (treeNN Γ cfg M n (targetUri mp.qname)) c.1) c.1 c.2).isEmpty := by
+        cases hk : (R.flatMap fun c =>
+            chunkTrees M (itemTreeNN M (treeNN Γ cfg M n (targetUri mp.qname)) c.1) c.1 c.2) with
         | nil => rw [hbodyNil hk]; rfl
         | cons t ts =>
           cases hb : body.flatten with
@@ -428,58 +433,38 @@ theorem main_stepN (ft : Feat) (e : BEnv) (Γ : Ctx) (cfg : SerCfg) (pcfg : Pars
             exact absurd (treesSax_eq_nil this) (by simp)
           | cons _ _ => rfl
       -- the entries
-      have hentry : ∀ en ∈ blockEntries (fun var => itemsN var (look fields var.name)) mp.elementVars,
+      have hentry : ∀ en ∈ R.flatMap chunkEntries,
           ElemFactsN mp en.1 ∧
           plain M (itemTreeNN M (treeNN Γ cfg M n (targetUri mp.qname)) en.1 en.2) = true ∧
           ItemP e Γ pcfg M mp en.1 en.2 (itemTreeNN M (treeNN Γ cfg M n (targetUri mp.qname)) en.1 en.2) := by
         intro en hen
-        obtain ⟨hv, hy⟩ := mem_blockEntries hen
-        exact ⟨(hEF _ hv).1, ((hB _ hv).items _ hy _ (Or.inl rfl)).2.1, ((hB _ hv).items _ hy _ (Or.inl rfl)).2.2⟩
-      have hplainK : plainList M (mp.elementVars.flatMap fun var =>
-          varTreesN M (treeNN Γ cfg M n (targetUri mp.qname)) var (look fields var.name)) = true := by
+        obtain ⟨hv, hy⟩ := mem_entries hspec hEnames hen
+        exact ⟨(hEF _ hv).1, ((hB _ hv).items _ hy _ (Or.inl rfl)).2.1,
+          ((hB _ hv).items _ hy _ (Or.inl rfl)).2.2⟩
+      have hplainK : plainList M (R.flatMap fun c =>
+          chunkTrees M (itemTreeNN M (treeNN Γ cfg M n (targetUri mp.qname)) c.1) c.1 c.2) = true := by
         rw [plainList_iff]
         intro t ht
-        obtain ⟨var, hv, htv⟩ := List.mem_flatMap.1 ht
-        simp only [varTreesN] at htv
-        split at htv
-        · cases htv
-        · exact (plainList_iff M _).1 (plain_chunkTrees (fun y hy => ((hB var hv).items y hy _ (Or.inl rfl)).2.1)) t htv
+        obtain ⟨c, hc, htc⟩ := List.mem_flatMap.1 ht
+        exact (plainList_iff M _).1 (plain_chunkTrees (fun y hy =>
+          ((hB _ (hspec.1 c hc).1).items y (hitemOf c hc y hy) _ (Or.inl rfl)).2.1)) t htc
       -- the parser
-      have hK := parseKids_chunks e Γ pcfg M MF.choices MF.wild
-        (fun en => itemTreeNN M (treeNN Γ cfg M n (targetUri mp.qname)) en.1 en.2)
-        (mp.elementVars.flatMap (fun var => emitOfN var (look fields var.name))) {}
-        (fun c hc => by
-          obtain ⟨var, hv, hcv⟩ := List.mem_flatMap.1 hc
-          obtain ⟨rfl, _⟩ := mem_emitOfN hcv
-          refine ⟨(hEF var hv).1, fun en hen => ?_⟩
-          simp only [chunkEntries, List.mem_map] at hen
-          obtain ⟨y, hy, rfl⟩ := hen
-          exact ((hB var hv).items y hy _ (Or.inl rfl)).2.2)
-        (by
-          rw [chunks_entries]
-          exact AssignedOK_blocks _ _ [] (fun var hv => (hB var hv).short) MF.idxNodup
-            (fun _ _ h => by cases h))
-      rw [chunks_entries] at hK
-      have hK' : parseKids e Γ pcfg mp {} none (mp.elementVars.flatMap fun var =>
-            varTreesN M (treeNN Γ cfg M n (targetUri mp.qname)) var (look fields var.name)) =
-          .ok (⟨(blockEntries (fun var => itemsN var (look fields var.name)) mp.elementVars).map
-              (fun en => (some en.1.qname, en.2)), 0⟩,
-            stAfterChunks {} (mp.elementVars.flatMap (fun var => emitOfN var (look fields var.name)))) := by
-        rw [← chunks_trees]; exact hK
-      have hWs : WsOK (stAfterChunks {} (mp.elementVars.flatMap
-            (fun var => emitOfN var (look fields var.name)))).wrappers
-          (blockEntries (fun var => itemsN var (look fields var.name)) mp.elementVars) := by
+      have hK' := parseKids_chunks e Γ pcfg M MF.choices MF.wild
+        (fun en => itemTreeNN M (treeNN Γ cfg M n (targetUri mp.qname)) en.1 en.2) R {}
+        (fun c hc => ⟨(hEF _ (hspec.1 c hc).1).1, fun en hen =>
+          (hentry en (List.mem_flatMap.2 ⟨c, hc, hen⟩)).2.2⟩)
+        (AssignedOK_spec hspec hEnames MF.idxNodup (fun var hv => (hB var hv).short))
+      have hWs : WsOK (stAfterChunks {} R).wrappers (R.flatMap chunkEntries) := by
         apply WsOK_of_queues
         · intro q'
-          rw [wsGet_stAfterChunks, chunks_entries]
+          rw [wsGet_stAfterChunks]
           simp [wsGet]
         · intro en hen en' hen' hqq
-          rw [eq_of_nodup_qname MF.qnNodup (mem_blockEntries hen).1 (mem_blockEntries hen').1 hqq]
-      have hinitE : ∀ en ∈ blockEntries (fun var => itemsN var (look fields var.name)) mp.elementVars,
-          en.1.init = true := fun en hen => (hentry en hen).1.init
+          rw [eq_of_nodup_qname MF.qnNodup (mem_entries hspec hEnames hen).1
+            (mem_entries hspec hEnames hen').1 hqq]
+      have hinitE : ∀ en ∈ R.flatMap chunkEntries, en.1.init = true := fun en hen => (hentry en hen).1.init
       have hF : classFactory Γ mp.clazz (bindEntries (attrParamsN cfg mp.attributeVars fields)
-          (blockEntries (fun var => itemsN var (look fields var.name)) mp.elementVars)) =
-          .ok (.obj cls fields) := by
+          (R.flatMap chunkEntries)) = .ok (.obj cls fields) := by
         rw [hclazz]
         apply classFactory_F1 Γ hfind fields _ hnames MF.fieldNodup
         intro fi hfi
@@ -487,26 +472,26 @@ theorem main_stepN (ft : Feat) (e : BEnv) (Γ : Ctx) (cfg : SerCfg) (pcfg : Pars
         rcases List.mem_append.1 hvar with hvA | hvE
         · apply hfactoryA _ _ fi hfi var hvA hname
           intro w hw
-          rw [get_bindEntries _ _ _ hinitE, filter_blockEntries_none]
-          · exact hPA w hw
-          · intro hmem
-            obtain ⟨b, hb, hbn⟩ := List.mem_map.1 hmem
-            exact hAE w hw b hb hbn.symm
+          have hnone : (R.flatMap chunkEntries).filter (fun en => en.1.name = w.name) = [] := by
+            rw [List.filter_eq_nil_iff]
+            intro en hen hk
+            simp only [decide_eq_true_eq] at hk
+            exact hAE w hw en.1 (mem_entries hspec hEnames hen).1 hk.symm
+          rw [get_bindEntries _ _ _ hinitE, hnone]
+          exact hPA w hw
         · apply elem_field_okN (hEF var hvE).2.2.1 MF.fieldNodup hfi hname _ (hB var hvE).param
-          rw [get_bindEntries _ _ _ hinitE, filter_blockEntries _ _ hEnames var hvE, attrParamsN_get_none,
+          rw [get_bindEntries _ _ _ hinitE, entries_of_var hspec hEnames hvE, attrParamsN_get_none,
             foldl_accVar]
           intro hmem
           obtain ⟨a, ha, han⟩ := List.mem_map.1 hmem
           exact hAE a ha var hvE han
       have hT : ∀ xn, bindText e pcfg mp xn M
-          (bindEntries (attrParamsN cfg mp.attributeVars fields)
-            (blockEntries (fun var => itemsN var (look fields var.name)) mp.elementVars)) none =
-          .ok (false, bindEntries (attrParamsN cfg mp.attributeVars fields)
-            (blockEntries (fun var => itemsN var (look fields var.name)) mp.elementVars), 0) := by
+          (bindEntries (attrParamsN cfg mp.attributeVars fields) (R.flatMap chunkEntries)) none =
+          .ok (false, bindEntries (attrParamsN cfg mp.attributeVars fields) (R.flatMap chunkEntries), 0) := by
         intro xn; simp [bindText, htext]
       -- `xsi:nil` is kept only without content, and then the class is nillable
-      have hnilkept : (mp.elementVars.flatMap fun var =>
-            varTreesN M (treeNN Γ cfg M n (targetUri mp.qname)) var (look fields var.name)) = [] →
+      have hnilkept : (R.flatMap fun c =>
+            chunkTrees M (itemTreeNN M (treeNN Γ cfg M n (targetUri mp.qname)) c.1) c.1 c.2) = [] →
           (nl || mp.nillable) = true → mp.nillable = true := by
         intro hk hN
         simp only [Bool.or_eq_true, Bool.not_eq_true', List.any_eq_true] at hcontent
@@ -514,18 +499,36 @@ theorem main_stepN (ft : Feat) (e : BEnv) (Γ : Ctx) (cfg : SerCfg) (pcfg : Pars
         · simpa [h] using hN
         · exact h
         · exfalso
-          have := emitsChild_trees (M := M) (rec := treeNN Γ cfg M n (targetUri mp.qname)) (hB var hv).shape hem
-          apply this
-          have hsub : ∀ t ∈ varTreesN M (treeNN Γ cfg M n (targetUri mp.qname)) var (look fields var.name),
-              t ∈ (mp.elementVars.flatMap fun var =>
-                varTreesN M (treeNN Γ cfg M n (targetUri mp.qname)) var (look fields var.name)) :=
-            fun t ht => List.mem_flatMap.2 ⟨var, hv, ht⟩
-          rw [hk] at hsub
-          cases hvt : varTreesN M (treeNN Γ cfg M n (targetUri mp.qname)) var (look fields var.name) with
-          | nil => rfl
-          | cons t ts => exact absurd (hsub t (by rw [hvt]; simp)) (by simp)
-      generalize hkids : (mp.elementVars.flatMap fun var =>
-          varTreesN M (treeNN Γ cfg M n (targetUri mp.qname)) var (look fields var.name)) = kids
+          have hne := emitsChild_items (hB var hv).shape hem
+          have hsp := hspec.2 var.name
+          rw [find?_name_of_mem hEnames hv] at hsp
+          -- some chunk of `var` has an item, hence a tree
+          cases hfl : (R.filter (fun c => c.1.name = var.name)).flatMap (fun c => itemsN c.1 c.2) with
+          | nil => rw [hfl] at hsp; exact hne hsp.symm
+          | cons y ys =>
+            have hy : y ∈ (R.filter (fun c => c.1.name = var.name)).flatMap (fun c => itemsN c.1 c.2) := by
+              rw [hfl]; simp
+            obtain ⟨c, hc, hyc⟩ := List.mem_flatMap.1 hy
+            have hcR := (List.mem_filter.1 hc).1
+            have htrees : chunkTrees M (itemTreeNN M (treeNN Γ cfg M n (targetUri mp.qname)) c.1) c.1 c.2 ≠ [] := by
+              simp only [chunkTrees]
+              cases c.1.wrapperQName with
+              | some w => simp
+              | none =>
+                simp only [ne_eq, List.map_eq_nil_iff]
+                intro h0; rw [h0] at hyc; cases hyc
+            apply htrees
+            have hsub : ∀ t ∈ chunkTrees M (itemTreeNN M (treeNN Γ cfg M n (targetUri mp.qname)) c.1) c.1 c.2,
+                t ∈ (R.flatMap fun c =>
+                  chunkTrees M (itemTreeNN M (treeNN Γ cfg M n (targetUri mp.qname)) c.1) c.1 c.2) :=
+              fun t ht => List.mem_flatMap.2 ⟨c, hcR, ht⟩
+            rw [hk] at hsub
+            cases hct : chunkTrees M (itemTreeNN M (treeNN Γ cfg M n (targetUri mp.qname)) c.1) c.1 c.2 with
+            | nil => rfl
+            | cons t ts => exact absurd (hsub t (by rw [hct]; simp)) (by simp)
+      simp only [kidsN, hvalsN]
+      generalize hkids : (R.flatMap fun c =>
+          chunkTrees M (itemTreeNN M (treeNN Γ cfg M n (targetUri mp.qname)) c.1) c.1 c.2) = kids
         at hBodyW hbodyNil hempty hplainK hK' hnilkept
       have hsubw := SubW_elemN (M := M) (isDt := isDatatype Γ) q
         (attrEvsN cfg mp.attributeVars fields ++ nilEvs (nl || mp.nillable))
